@@ -529,7 +529,7 @@ Proof.
   - destruct o; try discriminate Hd; cbn [step_f step gstep_f].
     + unfold begin_txn. rewrite E. cbn [fst]. now rewrite E.
     + unfold commit_txn. rewrite E. reflexivity.
-    + unfold rollback_txn. rewrite E. reflexivity.
+    + unfold rollback_txn. rewrite E. destruct (rebuild_defs _ _ _). reflexivity.
     + unfold create_savepoint. rewrite E. cbn [fst d_tx d_tabs x_log x_sps].
       apply stack_inv_f_push; [lia|assumption].
     + unfold release_savepoint. rewrite E.
